@@ -29,6 +29,7 @@ fn main() {
             let out = &args[5];
             let shard: usize = args.get(6).map(|s| s.parse().expect("shard")).unwrap_or(0);
             let nshards: usize = args.get(7).map(|s| s.parse().expect("nshards")).unwrap_or(1);
+            *suites::CURRENT.lock().unwrap() = Some(format!("{}.current", out));
             let mut f = std::io::BufWriter::new(std::fs::File::create(out).expect("create out"));
             let mut n = 0usize;
             suites::run(suite, thorough, seed, shard, nshards, &mut |line: String| {
@@ -37,6 +38,7 @@ fn main() {
                 n += 1;
             });
             f.flush().unwrap();
+            let _ = std::fs::remove_file(format!("{}.current", out));
             eprintln!("harness: suite={} cases={}", suite, n);
         }
         "rerun" => {
